@@ -104,6 +104,9 @@ func (p Pipe) reader(b []byte) io.Reader {
 	return &chunkReader{bytes.NewReader(b), p.Chunk}
 }
 
+// Reader is the reader this pipeline feeds its streams with (chunked when Chunk > 0).
+func (p Pipe) Reader(b []byte) io.Reader { return p.reader(b) }
+
 func errStr(e error) string {
 	if e == nil {
 		return "-"
